@@ -6,8 +6,9 @@ Props.C20 — Tests are isolated from each other and results are deterministic.
 * `isolation_needs_copy_cex`: the premise is needed — a field passed by reference and updated in place is seen by the parent
   (this is the situation of `known_keys` / `known_sigs`, shared on purpose).
 * `copy_table_ok`: the table extracted from sevm.py (`Gen.CopyTable`) satisfies the premise at `create_branch`,
-  `run_message`, `Path.branch`, `Path.extend_path`, and the continuation sites start from fresh `context` / `st` / `jumpis`
-  which the callbacks restore by deep copy. Changing e.g. `deepcopy(ex.storage)` to `ex.storage` breaks this theorem.
+  `run_message`, `Path.branch`, `Path.extend_path`, the continuation sites start from fresh `context` / `st` / `jumpis`
+  which the callbacks restore by deep copy, and the per-CALL / per-CREATE state backups as well as every failure-branch restore
+  from them (run once per callee path) are copies as deep as the in-place changes. Changing e.g. `deepcopy(ex.storage)` to `ex.storage` breaks this theorem.
 * `table_allows`: with `copy_table_ok`, every operation whose depth is within `mutDepth` of its field is `Allowed`.
 * `order_independent`: on the abstract `runTests` model, per-test results do not depend on order, subset or repetition.
 -/
@@ -88,6 +89,9 @@ theorem copy_table_ok :
       ∧ (pathSites.all fun s => pathSiteOk s.2) = true
       ∧ (contSites.all fun s => contSiteOk s.2) = true
       ∧ (callbackRestores.all fun s => callbackOk s.2) = true
+      ∧ (backupSites.all fun s => backupOk s.2) = true
+      ∧ (failureRestores.all fun s => backupOk s.2) = true
+      ∧ failureRestores.map (·.1) = ["call.callback.failure", "create.callback.failure"]
       ∧ forkSites.map (·.1) = ["create_branch", "run_message"]
       ∧ contSites.map (·.1) = ["call", "create"]
       ∧ pathSites.map (·.1) = ["branch", "extend_path"] := by
